@@ -108,7 +108,7 @@ std::ostream &operator<<(std::ostream &o, const xoshiro256ss &e)
 ///
 std::istream &operator>>(std::istream &i, xoshiro256ss &e)
 {
-  return i >> e.state[0] >> e.state[1] >> e.state[2] >> e.state[31];
+  return i >> e.state[0] >> e.state[1] >> e.state[2] >> e.state[3];
 }
 
 ///
